@@ -260,6 +260,53 @@ func isNewFunc(f *ssa.Function) bool {
 	return !knownFuncs[rel+":"+recv+"."+f.Name()]
 }
 
+// isNewFlag: v reads a boolean struct field that the inventory does not list - an option added after the rules were
+// written. Its zero value is the behaviour the rules were calibrated on ("a new option with a default that keeps
+// today's behaviour"); the evaluators of path conditions take it as false, so what only happens with the option
+// switched on is new behaviour that no rule judges - neither accepted nor reported. The evidence names such
+// fields (new_options_assumed_off).
+func isNewFlag(v ssa.Value) bool {
+	if knownFuncs == nil || !knownFuncs["field:inventory-has-fields"] {
+		return false
+	}
+	var fv *types.Var
+	var owner types.Type
+	switch x := v.(type) {
+	case *ssa.UnOp:
+		fa, ok := x.X.(*ssa.FieldAddr)
+		if !ok || x.Op != token.MUL {
+			return false
+		}
+		fv, owner = fieldVarOf(fa), derefT(fa.X.Type())
+	case *ssa.Field:
+		fv, owner = fieldVarOf(x), x.X.Type()
+	default:
+		return false
+	}
+	if fv == nil || !isBool(fv.Type()) {
+		return false
+	}
+	n, ok := owner.(*types.Named)
+	if !ok || n.Obj().Pkg() == nil {
+		return false
+	}
+	path := n.Obj().Pkg().Path()
+	if path != modPath && !strings.HasPrefix(path, modPath+"/") {
+		return false
+	}
+	rel := strings.TrimPrefix(strings.TrimPrefix(path, modPath), "/")
+	if rel == "" {
+		rel = "."
+	}
+	if knownFuncs["field:"+rel+":"+n.Obj().Name()+"."+fv.Name()] {
+		return false
+	}
+	newFlagsSeen[rel+"."+n.Obj().Name()+"."+fv.Name()] = true
+	return true
+}
+
+var newFlagsSeen = map[string]bool{}
+
 // load type-checks the module and builds its SSA form. When the tree declares functions that are not
 // in the inventory (normalize.go), their same-package calls are inlined first and the analysis runs
 // on the normalised program; positions are mapped back to the files on disk.
@@ -637,6 +684,15 @@ func (a *A) floorFailures() []*Ob {
 }
 
 func (a *A) finish(p *Prop, verifDir string, seed int64, start time.Time, extraInfo map[string]any) int {
+	if len(newFlagsSeen) > 0 {
+		var fs []string
+		for f := range newFlagsSeen {
+			fs = append(fs, f)
+		}
+		sort.Strings(fs)
+		a.Info("new_options_assumed_off", map[string]any{"fields": fs,
+			"note": "boolean struct fields that the inventory does not list: path conditions were evaluated with them false (their zero value, the behaviour the rules were calibrated on); what happens only with such an option on is not judged"})
+	}
 	for _, o := range a.floorFailures() {
 		a.curRule = "checker-integrity"
 		a.add(o)
